@@ -87,6 +87,8 @@ func runC01(p *Program, r *Report) {
 	c14client(p, r, "C01.negotiation.client")
 	cFramePayload(p, r, "C01.payload")
 	c03loop(p, r, "C01.recv.loop")
+	// bytes the client sent right behind its handshake are part of the first message (seed C01-M)
+	shareAs(r, "C11.buf", "C01.handoff", func(sub *Report) { c11gate(p, sub, "C01.handoff") })
 	sub := newReport(r.Prop, r.Tier)
 	c02rsv(p, sub, "C01.rsv")
 	for _, o := range sub.Obls {
@@ -821,6 +823,8 @@ func runC18(p *Program, r *Report) {
 		})
 	}
 	cReasons(p, r, "C18.reasons")
+	// "a peer's normal or going-away close reads as io.EOF": the close frame must first be accepted, up to 125 bytes (seed C18-N)
+	c03ctl(p, r, "C18.ctl")
 	armingRules(p, r, true, false)
 	c04adapters(p, r, "C18.msgend")
 	if fn := p.Func("netConn.Read"); fn != nil {
